@@ -196,10 +196,16 @@ func (y *Yaml) GetMapKeys() ([]string, error) {
 	if err != nil {
 		return nil, err
 	}
+	// document order: ranging over the Go map would hand the keys out in a different order on
+	// every run, and variable names and rule order of the generated Rego follow this order
 	keys := make([]string, 0)
-	for k := range m {
-		keys = append(keys, k)
-
+	for i, n := range y.data.Content {
+		if i%2 == 0 {
+			if _, ok := m[n.Value]; ok {
+				keys = append(keys, n.Value)
+				delete(m, n.Value)
+			}
+		}
 	}
 	return keys, nil
 }
